@@ -48,6 +48,14 @@ def pathNodes : List (Edge K E) → List K
   | [] => []
   | (u, v, e) :: rest => u :: (((u, v, e) :: rest).map (fun x => x.2.1))
 
+/-- `Path::first_node`: the root end of the path (after repair F15: it used to hand out the *target* of the first edge) -/
+def pathFirstNode (p : List (Edge K E)) : Option K := p.head?.map (·.1)
+/-- `Path::last_node`: the target of the last edge -/
+def pathLastNode (p : List (Edge K E)) : Option K := p.getLast?.map (·.2.1)
+/-- `Path::first_edge` / `last_edge` -/
+def pathFirstEdge (p : List (Edge K E)) : Option (Edge K E) := p.head?
+def pathLastEdge (p : List (Edge K E)) : Option (Edge K E) := p.getLast?
+
 /-! ## Breadth-first search (`loop_outbound` / `loop_inbound` / `loop_adjacent`) -/
 
 /-- the `for edge in node.iter_*()` loop for the popped node `u`; `true` = target reached -/
